@@ -2,7 +2,7 @@
 # tools/wave_setup.sh <ID>... : scratch worktree of /repo's HEAD per property for a sub-agent (outside /repo and /verif),
 # with third-party build output pre-seeded, and the property's record as the only text from /verif.
 for id in "$@"; do
-  d=/tmp/mut3/$id; rm -rf $d; mkdir -p $d/MUTATION
+  d=${MUTDIR:-/tmp/mut3}/$id; rm -rf $d; mkdir -p $d/MUTATION
   git -C /repo worktree add -q --detach $d/wt HEAD || exit 2
   mkdir -p $d/wt/target && cp -a /repo/target/debug $d/wt/target/ 2>/dev/null
   grep "\"id\": *\"$id\"" /verif/properties.jsonl > $d/property.json
